@@ -746,6 +746,8 @@ fn perm_digits_case(cx: &mut Ctx, digits: &[u8], elem: &str) {
         "string" => perm_case(cx, "string", digits.iter().map(|&d| STRS[d as usize].to_string()).collect(), &format!("perm:{}:string", ds)),
         "tuple" => perm_case(cx, "tuple", digits.iter().map(|&d| TUPS[d as usize]).collect(), &format!("perm:{}:tuple", ds)),
         "reverse" => perm_case(cx, "reverse", digits.iter().map(|&d| Reverse(d)).collect(), &format!("perm:{}:reverse", ds)),
+        // zero-sized elements: every sequence of length k has exactly one arrangement
+        "unit" => perm_case(cx, "unit", digits.iter().map(|_| ()).collect::<Vec<()>>(), &format!("perm:{}:unit", ds)),
         // signed bytes with both signs: -2, -1, 0, 1, .. (unsigned byte order would put the negatives last)
         "i8" => perm_case(cx, "i8", digits.iter().map(|&d| d as i8 - 2).collect(), &format!("perm:{}:i8", ds)),
         // elements of 32 and 40 bytes (an implementation may move wide elements by another route), and boxed ones
@@ -930,6 +932,9 @@ fn plan_perms(plan: &mut Plan, thorough: bool, seed: u64) {
             n3 += 1;
             if len <= 5 {
                 // other element types (String, tuple, a reversed order) for the short sequences
+                if len <= 3 && digits.iter().all(|&d| d == 0) {
+                    plan.tasks.push(Task::PermDigits { digits: digits.clone(), elem: "unit" });
+                }
                 for elem in ["string", "tuple", "reverse", "wide", "strpair", "boxed"] {
                     plan.tasks.push(Task::PermDigits { digits: digits.clone(), elem });
                 }
@@ -959,7 +964,7 @@ fn plan_perms(plan: &mut Plan, thorough: bool, seed: u64) {
     for _ in 0..if thorough { 600 } else { 120 } {
         let len = rng.range_usize(0, 6);
         let digits: Vec<u8> = (0..len).map(|_| rng.below(10) as u8).collect();
-        let elem = *rng.pick(&["string", "tuple", "reverse", "wide", "strpair", "boxed", "i8"]);
+        let elem = *rng.pick(&["string", "tuple", "reverse", "wide", "strpair", "boxed", "i8", "unit"]);
         plan.tasks.push(Task::PermDigits { digits, elem });
     }
     // longer sequences with a bounded number of arrangements (beyond the stated scope of lengths, still lawful)
